@@ -6,17 +6,18 @@
 #                          TLC's own graph), with and without a lookup before the operation
 #  (C) Trace_GridSeq.tla   seeded random histories of real Grids, judged by TLC
 import json
+import os
 import multiprocessing
 import random
 
-from core import Report, Work, run_tlc, use_repo, seed, MachineryError, NCPU, write_consts
+from core import Report, Work, run_tlc, use_repo, seed, MachineryError, NCPU, write_consts, SPEC
 
 NOARG = 99
 # which property a failing clause belongs to
 CLAUSE_PROP = {
     'result': 'C14', 'rows': 'C14', 'len': 'C14', 'getitem': 'C14', 'slice': 'C14', 'contains': 'C14',
     'iter': 'C14', 'slice_shape': 'C14', 'parent_changed': 'C14', 'exception': 'C14', 'repr': 'C14',
-    'rev': 'C14', 'step2': 'C14', 'index': 'C14', 'count': 'C14',
+    'rev': 'C14', 'step2': 'C14', 'index': 'C14', 'count': 'C14', 'other': 'C14', 'switch': 'C14',
     'lookup': 'C15', 'get': 'C15',
     'version': 'C10',
 }
@@ -419,6 +420,16 @@ def run_engine(rep, tier, focus):
         rep.tlc('model-check', r)
         if r.invariant_violated:
             raise MachineryError('GridSeq.tla violates its own property %s' % r.invariant_violated)
+        # two live grids (parent and derived grid, the history switching between them)
+        two = 'MC_GridSeq_two.cfg'
+        if tier != 'quick':
+            two = work.path('MC_GridSeq_two3.cfg')
+            with open(os.path.join(SPEC, 'MC_GridSeq_two.cfg')) as fh, open(two, 'w') as out:
+                out.write(fh.read().replace('MaxLen = 2', 'MaxLen = 3'))
+        r2 = run_tlc(work, 'MC_GridSeq.tla', two, xmx='8g')
+        rep.tlc('model-check-two-grids', r2)
+        if r2.invariant_violated or not r2.completed:
+            raise MachineryError('GridSeq.tla (two live grids) violates %s\n%s' % (r2.invariant_violated, r2.out[-800:]))
         g = run_tlc(work, 'MC_GridSeq.tla', 'Gen_GridSeq.cfg' if tier == 'quick' else 'Gen_GridSeq_thorough.cfg', workers=1, xmx='12g',
                     timeout=3000)
         rep.tlc('state+edge generation', g)
@@ -512,12 +523,24 @@ def random_history(hs, rng, spec, codes, length):
     dict_ids = [i for i, d in enumerate(spec, 1) if d['t'] == 'dict']
     non_ids = [i for i, d in enumerate(spec, 1) if d['t'] != 'dict']
     evs = []
+    parked = None      # the other live grid: the parent of the last derivation (or the derived grid after a switch)
     names = ['append'] * 5 + ['insert'] * 4 + ['setitem'] * 4 + ['delitem'] * 3 + ['delslice', 'pop', 'pop', 'remove',
-             'reverse', 'extend', 'extend', 'iadd', 'slice', 'filter_id', 'filter_limit', 'clear']
+             'reverse', 'extend', 'extend', 'iadd', 'slice', 'slice', 'filter_id', 'filter_limit', 'clear']
     for _ in range(length):
         n = len(g._row)
         name = rng.choice(names)
         if name == 'clear' and rng.random() < 0.7:
+            continue
+        if parked is not None and rng.random() < 0.12:
+            g, parked = parked, g
+            o = {'name': 'switch', 'res': ['None']}
+            try:
+                o['rows'] = [R.rid(x) for x in g._row]
+                o['ver'] = str(g.version)
+            except Exception as e:
+                o['rows'] = [-9]; o['ver'] = type(e).__name__
+            o['obs'] = observe(hs, g, R, codes, rng=rng)
+            evs.append(o)
             continue
         def RW():
             if rng.random() < 0.06:
@@ -540,6 +563,8 @@ def random_history(hs, rng, spec, codes, length):
             o['i'] = NOARG if rng.random() < 0.4 else IX()
         elif name in ('delslice', 'slice'):
             o['a'] = SL(); o['b'] = SL()
+            if name == 'slice' and rng.random() < 0.4:
+                o['a'] = rng.choice([NOARG, 0, -n]); o['b'] = rng.choice([NOARG, n, n + 1])   # the whole grid
         elif name in ('extend', 'iadd'):
             o['rs'] = [RW() for _ in range(rng.randint(0, 3))]
         elif name == 'filter_limit':
@@ -555,6 +580,8 @@ def random_history(hs, rng, spec, codes, length):
             o['rows'] = [-9]; o['ver'] = type(e).__name__
         o['obs'] = observe(hs, g2, R, codes, rng=rng)
         evs.append(o)
+        if res == ['grid']:
+            parked = g
         g = g2
     return {'ver': ver, 'given': given, 'evs': evs}
 
@@ -570,7 +597,8 @@ def random_histories(rep, work, hs, tier):
     found = []
     verdicts = judge(rep, work, f, 'random')
     rep.traces += len(traces)
-    rep.extra['random_histories'] = {'count': nh, 'length': ln, 'rows_alphabet': len(spec), 'id_codes': len(codes)}
+    rep.extra['random_histories'] = {'count': nh, 'length': ln, 'rows_alphabet': len(spec), 'id_codes': len(codes),
+                                    'switches_between_parent_and_derived_grid': sum(1 for t in traces for e in t['evs'] if e['name'] == 'switch')}
     rep.sample({'history_event': {k: v for k, v in traces[0]['evs'][0].items() if k != 'obs'}})
     for i, tr in enumerate(traces, 1):
         rep.case(('hist', i))
